@@ -47,9 +47,7 @@ Theorem C11_total_revert :
     (forall e, In e a -> params_wf (e_inputs e)) ->
     ParseError H DecModel.DecodeABIData a revertData <> Panic /\
     ErrorString H DecModel.DecodeABIData format_args a revertData <> Panic.
-Proof.
-  intros H HH fa a rd Hw. split; [apply ParseError_total|apply ErrorString_total]; assumption.
-Qed.
+Proof. exact revert_total. Qed.
 Print Assumptions C11_total_revert.
 
 (* 2. Memory.  [DecodeABIData_c] is the decoder observed more closely: the same result ... *)
@@ -106,6 +104,26 @@ Theorem C11_serializable_calldata :
 Proof. exact decoded_calldata_serializable. Qed.
 Print Assumptions C11_serializable_calldata.
 
+(* ... including the trees returned for event logs (topic-derived leaves hold the decoded value or the
+   raw topic bytes) and for revert data. *)
+Theorem C11_serializable_event :
+  forall (H : bytes -> bytes) (e : entry) (topics : list bytes) (data : bytes) (x : cval),
+    params_wf (e_inputs e) ->
+    DecodeEventData H DecModel.DecodeABIData DecModel.decode_elementary e topics data = Ok x ->
+    forall (H' : bytes -> bytes) (fs : bfloat -> jv) (dn : nat -> bytes) (s : serializer),
+      SerializeJSON H' fs dn s x <> Panic /\ SerializeInterface H' fs dn s x <> Panic.
+Proof. exact event_tree_serializable. Qed.
+Print Assumptions C11_serializable_event.
+
+Theorem C11_serializable_revert :
+  forall (H : bytes -> bytes) (a : list entry) (revertData : bytes) (e : entry) (x : cval),
+    (forall e, In e a -> params_wf (e_inputs e)) ->
+    ParseError H DecModel.DecodeABIData a revertData = Ok (Some (e, x)) ->
+    forall (H' : bytes -> bytes) (fs : bfloat -> jv) (dn : nat -> bytes) (s : serializer),
+      SerializeJSON H' fs dn s x <> Panic /\ SerializeInterface H' fs dn s x <> Panic.
+Proof. exact revert_tree_serializable. Qed.
+Print Assumptions C11_serializable_revert.
+
 (* 4. Stability.  What a decoded tree looks like (unconditional): it is shaped like the component
       tree, holds at every leaf the Go value kind the encoder asserts, is the canonical tree
       [cv_of c (val_of x)] of its own value, and - if the encoder accepts it and its bool leaves hold
@@ -143,13 +161,7 @@ Theorem C11_stable_fixed_refuted :
   exists (c : tcomp) (bs : bytes) (x : cval) (e : bytes),
     tc_wf c = true /\ DecodeABIData c bs 0 = Ok x /\ EncodeABIData x = Ok e /\
     match DecodeABIData c e 0 with Ok x' => cval_eqb x x' | _ => false end = false.
-Proof.
-  exists (tc_of_ty (TTuple [TFixed 8 1])), (repeat xff 32).
-  exists (CV (Some (tc_of_ty (TTuple [TFixed 8 1])))
-            [CV (Some (tc_of_ty (TFixed 8 1))) [] (GBigFloat (BFin (-14757395258967641293) (-67) 64))] GNil).
-  exists (Rlp.Model.be_fixed 32 1).
-  split; [vm_compute; reflexivity|]. split; [vm_compute; reflexivity|]. split; vm_compute; reflexivity.
-Qed.
+Proof. exact stable_fixed_refuted. Qed.
 Print Assumptions C11_stable_fixed_refuted.
 
 (* ---------- non-vacuity ---------- *)
